@@ -230,3 +230,31 @@ for _lab, _groups, _same in (('partners {d} and {d, c}', [('a', 'd'), ('b', 'd')
              params={'req1': obj('<ns>', request_id=const('a'), **_RQC), 'req2': obj('<ns>', request_id=const('b'), **_RQC),
                      'disjlist': lst(*[_DJ(*g) for g in _groups])},
              ensures=[('merged_only_with_the_same_partners', f'iff(result, {_same})')], use_at_calls=False, modifies=[])
+
+# ---------------------------------------------------------------- find_reversed_path on concrete path shapes (C13, C19)
+def _n(cls, **kw):
+    return obj(cls, uid=string(), **kw)
+_RB = shared('roadm B', _n('Roadm'))
+_REV1 = obj('OMS', oms_id=integer(), el_list=lst(_RB, _n('Edfa'), _n('Fiber'), _n('Roadm')))          # B -> A
+_REV2 = obj('OMS', oms_id=integer(), el_list=lst(_n('Roadm'), _n('Edfa'), _n('Fiber'), _n('Edfa'), _RB))  # C -> B
+_F1 = shared('oms 1', obj('OMS', oms_id=integer(), reversed_oms=_REV1))
+_F2 = shared('oms 2', obj('OMS', oms_id=integer(), reversed_oms=_REV2))
+contract('gnpy.topology.request.find_reversed_path', name='gnpy.topology.request.find_reversed_path[one OMS]', props=['C13', 'C19'],
+         params={'pth': lst(_n('Transceiver'), _n('Roadm'), _n('Edfa', oms=_F1), _n('Fiber', oms=_F1), _n('Roadm'), _n('Transceiver'))},
+         let={'r': 'pth[2].oms.reversed_oms.el_list'},
+         ensures=[('from_destination_to_source_over_the_paired_oms', 'len(result) == 6 and result[0] is pth[5] and result[5] is pth[0] and '
+                   'result[1] is r[0] and result[2] is r[1] and result[3] is r[2] and result[4] is r[3]')],
+         use_at_calls=False, modifies=[])
+contract('gnpy.topology.request.find_reversed_path', name='gnpy.topology.request.find_reversed_path[two OMS]', props=['C13', 'C19'],
+         params={'pth': lst(_n('Transceiver'), _n('Roadm'), _n('Edfa', oms=_F1), _n('Fiber', oms=_F1), _n('Edfa', oms=_F1), _n('Roadm'),
+                            _n('Edfa', oms=_F2), _n('Fiber', oms=_F2), _n('Roadm'), _n('Transceiver'))},
+         let={'r1': 'pth[2].oms.reversed_oms.el_list', 'r2': 'pth[6].oms.reversed_oms.el_list'},
+         # the paired OMS in reverse order of crossing, the ROADM they share once, destination first and source last
+         ensures=[('length', 'len(result) == 10'), ('ends', 'result[0] is pth[9] and result[9] is pth[0]'),
+                  ('second_oms_first', 'all(result[1 + k] is r2[k] for k in range(5))'),
+                  ('then_the_first_oms_without_repeating_the_shared_roadm', 'all(result[5 + k] is r1[k] for k in range(1, 4)) and result[5] is r1[0]')],
+         use_at_calls=False, modifies=[])
+_UNI = shared('oms u', obj('OMS', oms_id=integer(), reversed_oms=const(None)))
+contract('gnpy.topology.request.find_reversed_path', name='gnpy.topology.request.find_reversed_path[no opposite direction]', props=['C13', 'C19'],
+         params={'pth': lst(_n('Transceiver'), _n('Roadm'), _n('Edfa', oms=_UNI), _n('Fiber', oms=_UNI), _n('Roadm'), _n('Transceiver'))},
+         raises={'ValueError': 'True'}, ensures=[], use_at_calls=False, modifies=[])
